@@ -96,7 +96,8 @@ class AxisReduction:
         new_dimensions.pop(self.index)
 
         # Find coordinate of Cartesian 'origin', i.e., [xmin, ymin, zmin]
-        min_corner = img.origin.copy()
+        # NOTE: Use floats, also for integer-typed origins (the dimensions are floats).
+        min_corner = np.array(img.origin, dtype=float)
         for index, matrix_index in enumerate(original_indexing):
             axis, reverse_axis = darsia.interpret_indexing(matrix_index, original_axes)
             if reverse_axis:
@@ -109,7 +110,7 @@ class AxisReduction:
         # Determine reduced origin - init with reduced [xmin, ymin, zmin] and add
         # dimensions following the same convention used in the definition of
         # default_origin in Image.
-        new_origin = np.array(new_min_corner)
+        new_origin = np.array(new_min_corner, dtype=float)
         for new_index, interim_matrix_index in enumerate(interim_indexing):
             # Fetch corresponding character index
             new_matrix_index = new_indexing[new_index]
